@@ -48,6 +48,9 @@ static int check_duration(uint64_t usecs, int8_t prec) {
   for (size_t i = 0; i + 1 < f.size(); i++) RCHECK(all_digits(f[i]), "field '%s' is not a number", f[i].c_str());
   for (size_t i = 1; i + 1 < f.size(); i++) RCHECK(f[i].size() == 2, "inner field '%s' is not zero-padded to two digits", f[i].c_str());
   if (f.size() > 1) RCHECK(ip.size() == 2, "seconds field '%s' is not zero-padded to two digits", sec.c_str());
+  if (f.size() >= 2) RCHECK(to_u128(f[f.size() - 2]) < 60, "minutes field '%s' is not below 60", f[f.size() - 2].c_str());
+  if (f.size() >= 3) RCHECK(to_u128(f[f.size() - 3]) < 24, "hours field '%s' is not below 24", f[f.size() - 3].c_str());
+  if (f.size() >= 2) RCHECK(to_u128(f[0]) != 0, "leading field is zero");
   if (prec >= 0) RCHECK((int)fp.size() == prec, "printed precision %zu, requested %d", fp.size(), prec);
   int P = (int)fp.size();
   if (P > 18) { printf("precision %d: value not re-evaluated (beyond 128-bit arithmetic)\n", P); return 0; }
